@@ -18,18 +18,23 @@ import corr_persist
 FAMILIES = []
 BRIDGES = []
 PROPS_V = 'Props/C17.v'
-EXTRA_TARGETS = ['Model/PersistCheck.vo', 'Model/NumCheck.vo']
+EXTRA_TARGETS = ['Model/PersistCheck.vo', 'Model/PersistCurveCheck.vo', 'Model/NumCheck.vo']
 BUDGET = {'quick': 60, 'thorough': 1200}
 ORACLE_RULE = ('generated process models (1..6 rows, units kg/SI/GPU, molar or mass feed compositions, values 1e-9..1e3, None-valued optional fields, both storage modes), '
                'diffusion curves (3 permeate modes, molar/mass), permeance functions (binary and JSON), conditions (JSON), and sequences of 2..5 saves under one membrane '
                'directory with the directory name forced to collide (harness-side replacement of datetime in process.py); non-trivial = all')
 ASSUMPTIONS = ['pandas / json / joblib / the OS store and return what they are given (oracle); text parsing of floats within 1e-9 relative']
 LEVEL_TEXT = ('Coq theorems: every CSV line written for a reported row loads back as that row, the whole table loads back with the same rows / scalar permeate condition / '
-              'length; for every prior directory listing and every hash value a save either raises FileExistsError or creates a directory that did not exist and keeps all '
-              'others. Tie (correspondence): the model is EXECUTED inside Coq (vm_compute, binary64 via PrimFloat) on generated process models and compared with the '
-              'bytes ProcessModel.save wrote (exact, column by column) and with what ProcessModel.load returned (1e-9), incl. unit conversion and mole->mass conversion on load.')
-LEVEL_NOTE = ('partial: pandas/joblib/json/OS behaviour is an oracle; curves, functions and conditions are covered by the sampled round trips (their column maps are not '
-              'separately modelled in Coq)')
+              'length; a constructed diffusion curve (any length >= 1, either composition basis) is written as one line per point and loads back (through from_frame AND the '
+              'DiffusionCurve constructor) with the same temperature, permeate condition, fluxes, permeances in kg units and mass-fraction compositions, a mass-fraction curve '
+              'is a fixed point, a file with holes in both the flux and the permeance columns is rejected; the JSON forms of PervaporationFunction and Conditions load back '
+              'field for field (the temperature programme is not stored), an out-of-range stored composition is rejected; for every prior directory listing and every hash '
+              'value a save either raises FileExistsError or creates a directory that did not exist and keeps all others. Tie (correspondence): the model is EXECUTED inside '
+              'Coq (vm_compute, binary64 via PrimFloat) on generated process models, curves (built from fluxes / permeances in kg, SI, GPU / both; files with blanked columns), '
+              'functions and conditions and compared with the bytes the real save wrote (exact, cell by cell / key by key) and with what the real load returned (1e-9), '
+              'incl. unit and mole->mass conversion on load and re-computation of permeances from fluxes when the permeance columns are missing.')
+LEVEL_NOTE = ('partial: pandas/joblib/json/OS behaviour is an oracle (assumed to store and return what it is given); the binary joblib form has no model (identity by '
+              'assumption, compared field for field on every run); DiffusionCurveSet grouping by curve_id is not modelled (single-curve files)')
 TECHNIQUE = 'Coq proof (column-map round trip, abstract file system) + correspondence: model executed by vm_compute vs real save/load'
 DESIGN_REF = 'DESIGN.md section 6 C17'
 
@@ -137,7 +142,7 @@ def check_curve(rng, tmp):
     ctype = rng.choice(['weight', 'molar'])
     mode = rng.choice(['vac', 'temp', 'press'])
     tp = rng.uniform(150, 300) if mode == 'temp' else None
-    pp = rng.uniform(0, 3) if mode == 'press' else None
+    pp = rng.choice([0.0, rng.uniform(0, 3)]) if mode == 'press' else None
     comps = [pv.Composition(p=rng.uniform(0.05, 0.95), type=ctype) for _ in range(n)]
     c = DiffusionCurve(mixture=m, membrane_name='mm', feed_temperature=rng.uniform(290, 360), feed_compositions=comps,
                        partial_fluxes=[(gens.loguniform(rng, 1e-3, 5), gens.loguniform(rng, 1e-6, 1)) for _ in range(n)],
@@ -178,28 +183,41 @@ def check_function(rng, tmp):
             return False, 'function (n=%d, m=%d) changed on reload' % (n, mm)
     cd = Conditions(membrane_area=gens.loguniform(rng, 1e-3, 10), initial_feed_temperature=rng.uniform(280, 370), initial_feed_amount=gens.loguniform(rng, 1e-2, 100),
                     initial_feed_composition=pv.Composition(p=rng.uniform(0, 1), type=rng.choice(['weight', 'molar'])),
-                    permeate_temperature=rng.choice([None, rng.uniform(150, 300)]), permeate_pressure=rng.choice([None, rng.uniform(0, 5)]))
+                    permeate_temperature=rng.choice([None, rng.uniform(150, 300)]), permeate_pressure=rng.choice([None, 0.0, rng.uniform(0, 5)]))
     cd.safe_save(Path(tmp) / 'c.json')
     lc = Conditions.safe_load(Path(tmp) / 'c.json')
     if not (lc.membrane_area == cd.membrane_area and lc.initial_feed_temperature == cd.initial_feed_temperature and lc.initial_feed_amount == cd.initial_feed_amount
             and lc.initial_feed_composition.p == cd.initial_feed_composition.p and lc.initial_feed_composition.type == cd.initial_feed_composition.type
             and lc.permeate_temperature == cd.permeate_temperature and lc.permeate_pressure == cd.permeate_pressure):
-        return False, 'conditions changed on reload'
+        return False, 'conditions changed on reload: saved %r, loaded %r' % (cd, lc)
     return True, ''
+
+
+CHECKS = {'process': check_process, 'collisions': check_collisions, 'curve': check_curve, 'function': check_function}
 
 
 def oracle(rng, tier):
     while True:
         kind = rng.choice(['process', 'process', 'collisions', 'curve', 'function'])
+        sub = rng.getrandbits(32)          # every item is reproducible from (kind, subseed): see replay()
         tmp = tempfile.mkdtemp(prefix='verif_c17_')
         try:
-            ok, detail = {'process': check_process, 'collisions': check_collisions, 'curve': check_curve, 'function': check_function}[kind](rng, tmp)
+            ok, detail = CHECKS[kind](random.Random(sub), tmp)
         except Exception as e:
             ok, detail = False, 'raised %s: %s' % (type(e).__name__, e)
         finally:
             shutil.rmtree(tmp, ignore_errors=True)
-        yield {'kind': kind, 'case': {'kind': kind}, 'ok': ok, 'detail': detail}
+        yield {'kind': kind, 'case': {'kind': kind, 'subseed': sub}, 'ok': ok, 'detail': detail}
 
 
 def replay(rep):
-    return True, 're-run bin/check C17 with VERIF_SEED=%s' % rep.get('seed')
+    c = (rep.get('failure') or {}).get('case') or {}
+    if 'subseed' not in c:
+        return True, 're-run bin/check C17 with VERIF_SEED=%s' % rep.get('seed')
+    tmp = tempfile.mkdtemp(prefix='verif_c17_')
+    try:
+        return CHECKS[c['kind']](random.Random(c['subseed']), tmp)
+    except Exception as e:
+        return False, 'raised %s: %s' % (type(e).__name__, e)
+    finally:
+        shutil.rmtree(tmp, ignore_errors=True)
